@@ -744,6 +744,9 @@ func respace(r *Rng, src string, p int) (string, bool) {
 	prevEnd := 0
 	n := 0
 	for _, t := range toks {
+		if t.Offset < prevEnd || t.Offset > len(src) { // a lexer reporting offsets outside the source
+			break
+		}
 		if !t.Before && r.Chance(p, 100) {
 			sb.WriteString(gaps[r.Intn(len(gaps))])
 			n++
@@ -761,6 +764,9 @@ func mutate(r *Rng, src string) string {
 	var sp []span
 	prev := 0
 	for _, t := range toks {
+		if t.Offset > len(src) {
+			break
+		}
 		if t.Offset > prev {
 			sp = append(sp, span{prev, t.Offset})
 		}
